@@ -42,6 +42,14 @@ impl AR {
 
     /// Given some data, predict the value for a single timestep ahead.
     pub fn predict_one(&self, data: &[f64]) -> f64 {
+        let start = data.len().saturating_sub(self.coeffs.len());
+        let centred: Vec<f64> = data[start..].iter().map(|x| x - self.intercept).collect();
+        self.predict_one_centred(&centred) + self.intercept
+    }
+
+    /// Applies the AR recursion to mean-centred data, giving the mean-centred value for a single
+    /// timestep ahead.
+    fn predict_one_centred(&self, data: &[f64]) -> f64 {
         let n = data.len();
         let coeff_len = self.coeffs.len();
         if n >= coeff_len {
@@ -57,10 +65,13 @@ impl AR {
     /// "data" to create subsequent forecasts.
     pub fn predict(&self, data: &[f64], n: usize) -> Vec<f64> {
         let forecasts = vec![0.; n];
-        let mut d: Vec<f64> = data[data.len() - self.coeffs.len()..].to_vec();
+        let mut d: Vec<f64> = data[data.len() - self.coeffs.len()..]
+            .iter()
+            .map(|x| x - self.intercept)
+            .collect();
         d.extend(forecasts);
         for i in self.coeffs.len()..d.len() {
-            d[i] = self.predict_one(&d[..i]);
+            d[i] = self.predict_one_centred(&d[..i]);
         }
         d[d.len() - n..]
             .to_vec()
